@@ -312,20 +312,22 @@ def pair_rule(chk, setup):
     chk.ob("R-PAIR", c + "[decision]", "interpolate exactly when target_dt < dt (strict)", ok,
            derived="%s" % [(e.op, "target on left" if "sel:max" in e.left.tags else "target on right") for e in dec],
            loc=dec[0].loc if dec else fi.loc())
-    # target_dt = max(period-derived / 20, dt / min_dt_ratio)
-    tgt = None
-    for n in ast.walk(fi.node):
-        if isinstance(n, ast.Assign) and isinstance(n.value, ast.Call) and ast.unparse(n.value.func) in ("max", "np.maximum", "numpy.maximum") \
-                and len(n.value.args) == 2 and isinstance(n.targets[0], ast.Name) and n.targets[0].id == "target_dt":
-            tgt = n
-    if tgt is None:
-        chk.ob("R-PAIR", c + "[target_dt]", "target_dt is the max of two terms", False, derived="no max(...) assignment to target_dt",
-               loc=fi.loc())
+    # target_dt = max(T_min / 20, dt / min_dt_ratio), T_min = first non-zero period: decided on the structure, whatever the locals are called
+    norm = straightline_env(fi.node.body, Normaliser(), exclude=set(fi.params))
+    maxes = [n for n in ast.walk(fi.node) if isinstance(n, ast.Call) and ast.unparse(n.func) in ("max", "np.maximum", "numpy.maximum")
+             and len(n.args) == 2 and not n.keywords]
+    tmin_atom = None
+    if len(maxes) != 1:
+        chk.ob("R-PAIR", c + "[target_dt]", "target_dt is the max of two terms", False, derived="%d two-argument max(...) call(s)" % len(maxes),
+               loc=fi.loc(), inconclusive=len(maxes) > 1)
     else:
-        norm = Normaliser()
-        ps = [norm.poly(a) for a in tgt.value.args]
+        tgt = maxes[0]
+        ps = [norm.poly(a) for a in tgt.args]
+
         def is_period_term(p):
-            return p.is_monomial() and list(p.t.values()) == [Fraction(1, 20)] and len(p.atoms()) == 1 and "period" in list(p.atoms())[0]
+            return p.is_monomial() and list(p.t.values()) == [Fraction(1, 20)] and len(p.atoms()) == 1 and \
+                all(e == 1 for m in p.t for _, e in m)
+
         def is_dt_term(p):
             if not p.is_monomial() or list(p.t.values()) != [Fraction(1)]:
                 return False
@@ -333,28 +335,77 @@ def pair_rule(chk, setup):
             d = dict(m)
             return d.get("self.dt") == 1 and d.get("min_dt_ratio") == -1 and len(d) == 2
         ok = (is_period_term(ps[0]) and is_dt_term(ps[1])) or (is_period_term(ps[1]) and is_dt_term(ps[0]))
+        if ok:
+            tmin_atom = list((ps[0] if is_period_term(ps[0]) else ps[1]).atoms())[0]
         chk.ob("R-PAIR", c + "[target_dt]", "target_dt = max(T_min / 20, dt / min_dt_ratio)", ok,
                derived="max(%s ; %s)" % (ps[0].canon(), ps[1].canon()), loc=fi.loc(tgt), stmt=norm_stmt(tgt))
     # the cached damping replaces xi exactly for the sentinel -1
     xi_sentinel(chk, fi, c, "R-PAIR")
-    # T_min is the first non-zero period
-    mn = [n for n in ast.walk(fi.node) if isinstance(n, ast.Assign) and isinstance(n.targets[0], ast.Name) and
-          n.targets[0].id == "min_non_zero_period"]
-    idx = sorted(ast.unparse(n.value).split("[")[-1].rstrip("]") for n in mn)
-    chk.ob("R-PAIR", c + "[T_min]", "T_min is period [0], or [1] when the first period is 0", idx == ["0", "1"],
-           derived="assigned from indices %s" % idx, loc=fi.loc(mn[0]) if mn else fi.loc())
+    # T_min is the first non-zero period: the variable in the period term is assigned periods[0] when periods[0] != 0, periods[1] otherwise
+    okt, why = False, "the period term of the max is not a twice-assigned local (%s)" % tmin_atom
+    defs = [n for n in ast.walk(fi.node) if isinstance(n, ast.Assign) and len(n.targets) == 1 and isinstance(n.targets[0], ast.Name) and
+            n.targets[0].id == tmin_atom]
+    PER = "self.response_times"
+    if len(defs) == 2:
+        host = [n for n in ast.walk(fi.node) if isinstance(n, ast.If) and any(d is x for d in defs for x in n.body) and
+                any(d is x for d in defs for x in n.orelse)]
+        why = "the two assignments are not the two branches of one test"
+        if len(host) == 1 and isinstance(host[0].test, ast.Compare) and len(host[0].test.ops) == 1:
+            t = host[0].test
+            l, r_ = norm.arg(t.left), norm.arg(t.comparators[0])
+            op = type(t.ops[0]).__name__
+            if r_ == PER + "[0]":
+                l, r_ = r_, l
+            first_zero_branch = None
+            if l == PER + "[0]" and r_ in ("0", "0.0"):
+                first_zero_branch = host[0].body if op == "Eq" else (host[0].orelse if op == "NotEq" else None)
+            why = "test `%s`" % ast.unparse(t)
+            if first_zero_branch is not None:
+                vz = [norm.arg(d.value) for d in defs if any(d is x for x in first_zero_branch)]
+                vn = [norm.arg(d.value) for d in defs if not any(d is x for x in first_zero_branch)]
+                okt = vz == [PER + "[1]"] and vn == [PER + "[0]"]
+                why = "first period zero -> %s, otherwise -> %s" % (vz, vn)
+    chk.ob("R-PAIR", c + "[T_min]", "T_min is period [0], or [1] when the first period is 0", okt, derived=why,
+           loc=fi.loc(defs[0]) if defs else fi.loc())
+
 
 
 def xi_sentinel(chk, fi, c, rule):
-    """`xi` is replaced by the cached damping exactly when it equals the sentinel -1 (an explicit xi = 0 must be honoured)"""
-    tests = [n for n in ast.walk(fi.node) if isinstance(n, ast.If) and any(isinstance(x, ast.Name) and x.id == "xi" for x in ast.walk(n.test))]
-    ok = len(tests) == 1
-    why = "%d test(s) on xi" % len(tests)
-    if ok:
-        t = tests[0].test
-        ok = isinstance(t, ast.Compare) and len(t.ops) == 1 and isinstance(t.ops[0], ast.Eq) and isinstance(t.left, ast.Name) and t.left.id == "xi" and \
-            ast.unparse(t.comparators[0]).replace(" ", "") in ("-1", "-1.0")
-        repl = [x for x in tests[0].body if isinstance(x, ast.Assign) and isinstance(x.targets[0], ast.Name) and x.targets[0].id == "xi"]
-        ok = ok and len(repl) == 1 and "_cached_xi" in ast.unparse(repl[0].value) and not tests[0].orelse
-        why = "test `%s`" % ast.unparse(t)
-    chk.ob(rule, c + "{xi sentinel}", "the cached damping is used exactly when xi == -1", ok, derived=why, loc=fi.loc(tests[0]) if tests else fi.loc())
+    """`xi` is replaced by the cached damping exactly when it equals the sentinel -1 (an explicit xi = 0 must be honoured).
+    Decided on the interpretation, so the statement form (`if xi == -1: xi = cached`) and the expression form
+    (`d = cached if xi == -1 else xi`) are the same thing: (a) every comparison that involves xi is `== -1` (or `!= -1`);
+    (b) with xi = -1 the damping handed on derives from the cached attribute; (c) with xi = 0, -0.5, -2 it is that constant."""
+    from ..tyob import analyse, against_const
+    cls = fi.cls.qualname if fi.cls is not None else None
+    NJ = ("eqsig.sdof.nigam_and_jennings_response", "eqsig.sdof.response_series", "eqsig.sdof.pseudo_response_spectra")
+
+    def handed_on(xiv):
+        r = analyse(chk, fi.qualname, lambda I, st, f: dict(xi=xiv), self_cls=cls, atoms=(R, DT, T))
+        out = []
+        for e in r.I.events:
+            if e.kind == "call" and e.callee in NJ and e.fn == fi.qualname and "xi" in e.bound:
+                out.append(e.bound["xi"])
+        return r, out
+    generic = AV(kind=K_SCALAR, dtype="real", shape=(), origin=frozenset(["lit"]), tags=frozenset(["p:xi"]), note="pyscalar")
+    r, vals = handed_on(generic)
+    cmps = [e for e in r.I.events if e.kind == "compare" and e.fn == fi.qualname and ("p:xi" in e.left.tags or "p:xi" in e.right.tags)]
+    shapes = []
+    ok = bool(cmps)
+    for e in cmps:
+        got = None
+        for side, other in ((e.left, e.right), (e.right, e.left)):
+            if "p:xi" in side.tags and other.has_const():
+                got = (e.op, other.const)
+        shapes.append(got)
+        ok = ok and got is not None and got[0] in ("Eq", "NotEq") and got[1] in (-1, -1.0)
+    chk.ob(rule, c + "{xi sentinel}", "the cached damping is used exactly when xi == -1: every test on xi compares it with -1 for equality", ok,
+           derived="tests on xi: %s" % (shapes or "none"), loc=cmps[0].loc if cmps else fi.loc(), stmt=cmps[0].stmt if cmps else None)
+    _, vals = handed_on(const_av(-1))
+    okc = bool(vals) and all(("attr:_cached_xi" in v.tags) and not (v.has_const() and v.const == -1) for v in vals)
+    chk.ob(rule, c + "{xi sentinel: -1}", "with xi = -1 the damping handed on is the cached one", okc,
+           derived="%s" % [("cached" if "attr:_cached_xi" in v.tags else (repr(v.const) if v.has_const() else "other")) for v in vals], loc=fi.loc())
+    for k in (0, -0.5, -2):
+        _, vals = handed_on(const_av(k))
+        okk = bool(vals) and all(v.has_const() and v.const == k and "attr:_cached_xi" not in v.tags for v in vals)
+        chk.ob(rule, c + "{xi sentinel: %s}" % k, "an explicit xi = %s is honoured" % k, okk,
+               derived="%s" % [("cached" if "attr:_cached_xi" in v.tags else (repr(v.const) if v.has_const() else "other")) for v in vals], loc=fi.loc())
